@@ -3,6 +3,7 @@ package props
 import (
 	"fmt"
 	"go/token"
+	"strings"
 
 	"verif/third_party/xtools/go/ssa"
 
@@ -15,7 +16,7 @@ func init() {
 		Info: core.Info{
 			Explanation: "Decides structural necessary conditions on Dial and its literals; timing, real scheduling order and 'first success wins' races are NOT decided (schedule properties need virtual-time execution or a model): " +
 				"(K1) goroutine census: exactly the worker pool, the closer (WaitGroup.Wait then close of the error channel) and one feeder; " +
-				"(K2) channel discipline: every blocking send/receive/select in Dial's literals has a <-ctx.Done() alternative on the Dial-scoped cancellable context, except the feeder->worker rendezvous (workers range over the target channel; the feeder closes it on every way out, so workers and the closer terminate) and the closer's Wait; all four channels are unbuffered; " +
+				"(K2) channel discipline: every blocking send/receive/select in Dial's literals has a <-ctx.Done() alternative on the Dial-scoped cancellable context, except the feeder->worker rendezvous (workers range over the target channel; the feeder closes it on every way out, so workers and the closer terminate) and the closer's Wait; all four channels are unbuffered; anything Dial defers that waits for its goroutines is registered before the deferred cancel (so the cancel runs first); " +
 				"(K3) the Dial-scoped context is WithCancel of the caller's and its cancel is deferred; each attempt runs under WithTimeout(that context, Timeout or 30 s) created inside the per-target loop and cancelled after the attempt in the same iteration; " +
 				"(K4) ownership: on dialOne's success edge the connection goes to sendConn, whose Done branch closes it (if it is a Closer) and whose other branch hands it to the unbuffered connection channel, i.e. directly to the collector, which returns it; " +
 				"(K5) pool shape: workers are started in a counted loop bounded by MaxConcurrency (default 3); dialOne is called only from the worker body, not under a nested go; " +
@@ -47,6 +48,54 @@ func c18Rules(p *core.Prog, r *core.Run) {
 	isDone := func(v ssa.Value) bool {
 		x := p.X(v)
 		return x.Op == "call" && x.Name == "(context.Context).Done" && len(x.Args) == 1 && isDialCtx(x.Args[0])
+	}
+
+	// --- K2 (defers): deferred calls run last-in first-out; anything deferred
+	// that waits for the goroutines (wg.Wait, a channel receive) must run after
+	// the deferred cancel, i.e. be registered before it - workers blocked in a
+	// send are only released by the cancellation
+	var cancelDefer ssa.Instruction
+	var waits []ssa.Instruction
+	for _, b := range dial.Blocks {
+		for _, in := range b.Instrs {
+			d, ok := in.(*ssa.Defer)
+			if !ok {
+				continue
+			}
+			x := p.CallExpr(d)
+			switch {
+			case x.Op == "call" && x.Name == "dyn" && len(x.Args) >= 1 && x.Args[0].Op == "ext" && x.Args[0].Name == "#1" && x.Args[0].Args[0].Val == ssa.Value(wc):
+				cancelDefer = d
+			case strings.HasSuffix(x.Name, "sync.WaitGroup).Wait"):
+				waits = append(waits, d)
+			default:
+				if fn := p.ResolveFuncValue(d.Call.Value); fn != nil {
+					blocking := false
+					for _, l := range core.Closures(fn) {
+						for _, bb := range l.Blocks {
+							for _, i2 := range bb.Instrs {
+								switch y := i2.(type) {
+								case *ssa.UnOp:
+									if y.Op == token.ARROW {
+										blocking = true
+									}
+								case *ssa.Call:
+									if strings.HasSuffix(p.X(y).Name, "sync.WaitGroup).Wait") {
+										blocking = true
+									}
+								}
+							}
+						}
+					}
+					if blocking {
+						waits = append(waits, d)
+					}
+				}
+			}
+		}
+	}
+	for i, w := range waits {
+		r.Check("C18.K2", fmt.Sprintf("defer-wait#%d", i), cancelDefer != nil && core.Before(w, cancelDefer), p.InstrPos(w), "a deferred wait for the goroutines is registered before the deferred cancel, so the cancel runs first and releases workers blocked in a send")
 	}
 
 	// --- K1
